@@ -13,6 +13,7 @@ import (
 )
 
 func init() {
+	zzvf.Register("VF_C18_K2_ClosedHandler", VF_C18_K2_ClosedHandler)
 	zzvf.Register("VF_C18_L2_Events", VF_C18_L2_Events)
 	zzvf.Register("VF_C18_L1_Adapter", VF_C18_L1_Adapter)
 	zzvf.Register("VF_C18_K1_Guards", VF_C18_K1_Guards)
@@ -280,4 +281,35 @@ func VF_C18_L2_Events() {
 		zzvf.Assert(seen[i] == byte('1'+i), "messages-reach-the-callback-in-publish-order-each-once")
 	}
 	zzvf.Assert(len(other) == otherPublished, "other-subscription-unaffected")
+}
+
+// VF_C18_K2_ClosedHandler: the library reports the loss of the server
+// connection (its closed callback runs, the connection object says closed):
+// the adapter invokes the registered closed handler exactly once with an
+// error, with or without requests pending; without a registered handler
+// nothing happens (no crash).
+func VF_C18_K2_ClosedHandler() {
+	c := vfNewClient()
+	calls := 0
+	var got error
+	registered := zzvf.Choose("handler-registered", 2) == 1
+	if registered {
+		c.SetClosedHandler(func(err error) { calls++; got = err })
+	}
+	done := &vfCompletion{}
+	if zzvf.Choose("request-pending", 2) == 1 {
+		c.SendRequest("call.test.m", []byte(`{}`), func(s string, data []byte, err error) { done.n++ })
+		zzvf.Settle()
+	}
+	zzvf.Reach("c18k2-lost")
+	// the connection is gone by the time the library runs the callback
+	zzvf.NatsSetClosed(true)
+	c.onClose(c.mq)
+	zzvf.Settle()
+	if registered {
+		zzvf.Assert(calls == 1 && got != nil, "loss-of-the-connection-invokes-the-closed-handler-once")
+	} else {
+		zzvf.Assert(calls == 0, "no-handler-no-call")
+	}
+	zzvf.Assert(c.IsClosed(), "adapter-reports-closed")
 }
